@@ -1046,7 +1046,7 @@ func (f *Facts) T(p string) string {
 // ---------------------------------------------------------------------------
 
 type calleeSummary struct {
-	onSuccess, onFailure []Atom // typed atoms over the callee's parameter renderings
+	onSuccess, onFailure []Atom   // typed atoms over the callee's parameter renderings
 	succAlts, failAlts   [][]Atom // the same before intersecting: one set per path of the callee with that outcome
 	paramRoot            []string
 	ambiguous            bool
